@@ -2,10 +2,13 @@
 #![allow(clippy::all)]
 
 pub mod backend;
+pub mod ck_backend;
 pub mod ck_cancel;
 pub mod ck_crash;
 pub mod ck_cycle;
 pub mod ck_engine;
+pub mod ck_intern;
+pub mod ck_lfu;
 pub mod ck_sets;
 pub mod ck_storage;
 pub mod conc;
